@@ -40,7 +40,10 @@ def check_space(ctx, rng):
         md = float(rng.choice(exact)) if exact else float(rng.uniform(0.3, 0.9) * bd.max())
     case = dict(coords=coords.tolist(), metric=metric, max_dist=md, kind=kind)
     with quiet():
-        ms = MetricSpace(as_caller_dtype(rng, coords.copy()), metric, md)
+        buf_ = as_caller_dtype(rng, coords.copy())
+        ms = MetricSpace(buf_, metric, md)
+        if isinstance(buf_, np.ndarray):
+            vario.recycle(buf_)      # the space describes the points it was given, not the caller's buffer
         D = ms.dists
     is_sparse = sp.issparse(D)
     ctx.count('space:' + ('sparse' if is_sparse else 'dense'))
@@ -94,6 +97,14 @@ def check_space(ctx, rng):
         a, b = zero_pairs[int(rng.integers(0, len(zero_pairs)))]
         idx = np.unique(np.concatenate([idx, [a, b]]))
         ctx.count('diagonal_with_colocated_pair')
+    # the index list is an arbitrary list: every point once in another order, a reversed order, a shuffled subset
+    r = rng.random()
+    if r < 0.2:
+        idx = rng.permutation(n)
+    elif r < 0.3:
+        idx = np.arange(n)[::-1].copy()
+    elif r < 0.5:
+        idx = rng.permutation(idx)
     with quiet():
         sub = np.asarray(ms.diagonal(idx), float)
     want = np.array([full[a, b] for k, a in enumerate(idx) for b in idx[k + 1:]])
@@ -195,7 +206,10 @@ def check_sampled(ctx, rng):
     for rep in range(2):
         np.random.seed(int(rng.integers(0, 2 ** 31)))      # the global stream must not matter for a seeded space
         with quiet():
-            pm = ProbabalisticMetricSpace(coords_in.copy(), 'euclidean', md, samples=samples, rnd=seed_obj)
+            buf_ = coords_in.copy()
+            pm = ProbabalisticMetricSpace(buf_, 'euclidean', md, samples=samples, rnd=seed_obj)
+            if isinstance(buf_, np.ndarray):
+                vario.recycle(buf_)
             D = pm.dists.tocoo()
             mats.append((sorted(zip(D.row.tolist(), D.col.tolist(), D.data.tolist())), pm.lidx.copy(), pm.ridx.copy()))
     ent, lidx, ridx = mats[0]
